@@ -98,9 +98,9 @@ structure RowOk (K : Consts) (ts : TypeSystem) (cass : List Cas) (hp : Heap) (o 
     isAnnot hp a = true →
     (∃ ci vn, slot hp a "sofa" = some (.sofa ci vn)) ∧ 0 ≤ beginOf hp a ∧ 0 ≤ endOf hp a
   /-- an array object has its `elements` slot, and the recursion budget of the model suffices for it -/
-  arr : isArrayFs K hp a = true → ∃ v, slot hp a "elements" = some v ∧ FuelOk need v (hp.length + 1)
+  arr : isArrayFs K hp a = true → ∃ v, slot hp a "elements" = some v ∧ FuelOk need v (2 * hp.length + 2)
   /-- the recursion budget of the model suffices for every feature value -/
-  cols : isArrayFs K hp a = false → ∀ n, FuelOk need ((slot hp a n).getD .none) (hp.length + 1)
+  cols : isArrayFs K hp a = false → ∀ n, FuelOk need ((slot hp a n).getD .none) (2 * hp.length + 2)
 
 /-! ### Boolean checkers for the well-formedness predicates (sound: `Proofs/ComparableSensChk.lean`) -/
 
@@ -137,11 +137,11 @@ def rowOkB (K : Consts) (ts : TypeSystem) (cass : List Cas) (hp : Heap) (o : Opt
         decide (0 ≤ beginOf hp a) && decide (0 ≤ endOf hp a))) &&
     (if isArrayFs K hp a then
         match slot hp a "elements" with
-        | some v => fuelOkB need v (hp.length + 1)
+        | some v => fuelOkB need v (2 * hp.length + 2)
         | none => false
       else
         match hp[a]? with
-        | some ob => ob.slots.all (fun p => fuelOkB need p.2 (hp.length + 1))
+        | some ob => ob.slots.all (fun p => fuelOkB need p.2 (2 * hp.length + 2))
         | none => true)
 
 end Cassis.Comparable
